@@ -93,6 +93,9 @@ func (p *Program) verifyFunc(fn *ssa.Function, ct *Contract, sweepOnly bool) (re
 		res.Obls = vc.obls
 		res.Notes = vc.notes
 	}()
+	if ct != nil && ct.Opts["fuel"] != "" {
+		fmt.Sscanf(ct.Opts["fuel"], "%d", &ex.fuel)
+	}
 	fr, st := p.newTopFrame(ex, fn, ct)
 	if ct != nil {
 		for _, r := range ct.Requires {
@@ -150,6 +153,7 @@ func (ex *Exec) trySpecBool(fr *Frame, st *State, c *Clause) (g string, ok bool)
 		if r := recover(); r != nil {
 			if se, isSpec := r.(specErr); isSpec && (strings.Contains(se.msg, "not live") || strings.Contains(se.msg, "unknown identifier")) {
 				ok = false
+				ex.vc.note("clause skipped at one program point (%s): %s", se.msg, c.Text)
 				return
 			}
 			panic(r)
@@ -162,6 +166,44 @@ func (ex *Exec) applyUnfolds(fr *Frame, st *State, ct *Contract) {
 	env := ex.envFor(fr, st)
 	for _, u := range ct.Unfold {
 		ex.assume(st, env.unfoldSpec(u.Expr))
+	}
+	// unfoldat n1, n2: every heap-recursive spec function of the package over that node type is unfolded at
+	// the nodes (as they were at entry) in this state.
+	if len(ct.UnfoldAt) == 0 {
+		return
+	}
+	pre := ex.envFor(fr, fr.entry)
+	pre.old = nil
+	for _, u := range ct.UnfoldAt {
+		node := pre.evalTerm(u.Expr, nil)
+		ex.unfoldAllAt(env, ct.PkgPath, node)
+	}
+}
+
+// unfoldAllAt unfolds every heap-recursive one-argument spec function of the package at node, in env's state.
+func (ex *Exec) unfoldAllAt(env *SpecEnv, pkgPath string, node Term) {
+	for _, k := range sortedKeys(ex.prog.cs.Specs) {
+		sf := ex.prog.cs.Specs[k]
+		if sf.PkgPath != pkgPath || !sf.Rec || sf.Body == nil || len(sf.Params) != 1 {
+			continue
+		}
+		inner := env.sub()
+		if pk := ex.prog.typesPkgByRel(sf.PkgPath); pk != nil {
+			inner.pkg = pk
+		}
+		pt := inner.resolveType(sf.Params[0].Type)
+		if !types.Identical(pt, node.T) {
+			continue
+		}
+		if len(ex.specReads(inner, sf)) == 0 {
+			continue
+		}
+		save := ex.unfoldDepth
+		ex.unfoldDepth = 0
+		ex.fuelOverride = 1
+		ex.specFuncApply(inner, sf, []Term{node})
+		ex.fuelOverride = 0
+		ex.unfoldDepth = save
 	}
 }
 
@@ -214,22 +256,17 @@ func (ex *Exec) checkReturn(fr *Frame, ct *Contract, r retInfo, ord int) {
 	}
 	// emits
 	for i, e := range ct.Emits {
-		env := ex.envFor(fr, st)
-		want := env.evalTerm(e.Expr, nil)
-		cur, ok := st.ghost["$emitted"]
-		if !ok {
-			ex.vc.heapT["$emitted"] = heapComp{sort: ex.vc.tc.sortOf(want.T)}
-			ex.vc.declareConst("G0_xemitted", ex.vc.tc.sortOf(want.T))
-			cur = "G0_xemitted"
-		}
-		// on success: emitted == old(emitted) + want ; on early error exit: emitted <= old + want
-		errv, hasErr := extra["err"]
-		sum := sx("(_ map (+ (Int Int) Int))", "G0_xemitted", want.S)
-		goal := sx("=", cur, sum)
-		if hasErr {
+		// counts are those of the entry state: evaluate the clause there
+		envPre := ex.envFor(fr, fr.entry)
+		envPre.old = nil
+		decl, bv, cnt, et := ex.emitCount(envPre, e)
+		cur := ex.emittedGet(st, et)
+		init := ex.emittedGet(fr.entry, et)
+		goal := fmt.Sprintf("(forall (%s) (= (select %s %s) (+ (select %s %s) %s)))", decl, cur, bv, init, bv, cnt)
+		if errv, hasErr := extra["err"]; hasErr {
 			goal = sImp(sEq(errv.(Term).S, "Dyn_nil"), goal)
 		}
-		ex.obligeNamed(st, fmt.Sprintf("%s#emits%d@ret%d", key, i+1, ord), "emits", goal, "emits exactly: "+e.Text, r.pos)
+		ex.obligeNamed(st, fmt.Sprintf("%s#emits%d@ret%d", key, i+1, ord), "emits", goal, "on success the callback was called exactly: "+e.Text, r.pos)
 	}
 	// frame
 	if ct.HasMod {
@@ -376,6 +413,9 @@ func (p *Program) verifyLemma(lm *Lemma) (res *FuncResult) {
 	}
 	for _, u := range lm.Unfold {
 		ex.assume(st, env.unfoldSpec(u))
+	}
+	for _, u := range lm.UnfoldAt {
+		ex.unfoldAllAt(env, lm.PkgPath, env.evalTerm(u, nil))
 	}
 	for _, u := range lm.Uses {
 		ex.assume(st, env.evalTerm(u, types.Typ[types.Bool]).S)
